@@ -118,9 +118,14 @@ func metaCheck(obs packObs) string {
 	var bodyBytes, headerBytes int64
 	for _, e := range obs.Entries {
 		names = append(names, e.Name)
+		// "the sum of the sizes recorded in the entry headers": of all
+		// entries (directory and link entries store no content and must
+		// record size 0)
+		headerBytes += e.Size
 		if e.Type == '0' || e.Type == 0 {
 			bodyBytes += int64(len(e.Body))
-			headerBytes += e.Size
+		} else if e.Size != 0 {
+			return fmt.Sprintf("entry %q of type %c stores no content but its header records size %d", e.Name, e.Type, e.Size)
 		}
 	}
 	if len(names) != len(obs.Meta.Files) {
